@@ -52,17 +52,23 @@ def write_hdf5_xsec(path, tab, molname, unit='bar'):
         f.create_dataset('key_iso_ll', data=molname)
 
 
-def write_exotransmit(path, tab):
+def write_exotransmit(path, tab, order='asc', seed=0):
     """Exo-Transmit text: line 1 temperatures, line 2 pressures (bar), then for
-    each wavelength (metres, ascending wavelength) a line with the wavelength
-    followed by one line per pressure: pressure then one value per temperature
-    (m2)."""
+    each wavelength (metres) a line with the wavelength followed by one line
+    per pressure: pressure then one value per temperature (m2).  Wavelength
+    blocks in ascending wavelength (what Exo-Transmit ships), descending
+    wavelength (= table order) or shuffled: the reader sorts them."""
     T, P, wn = tab['T'], tab['P'], tab['wn']
     x = np.array(tab['x'])
+    idx = list(range(len(wn) - 1, -1, -1))           # ascending wavelength
+    if order == 'desc':
+        idx = idx[::-1]
+    elif order == 'shuffle':
+        np.random.RandomState(seed % 2**32).shuffle(idx)
     with open(path, 'w') as f:
         f.write(' '.join('%.17e' % t for t in T) + '\n')
         f.write(' '.join('%.17e' % (p / 1e5) for p in P) + '\n')
-        for iw in range(len(wn) - 1, -1, -1):        # ascending wavelength
+        for iw in idx:
             f.write('%.17e\n' % (10000.0 * 1e-6 / wn[iw]))
             for ip in range(len(P)):
                 f.write('%.17e ' % (P[ip] / 1e5) +
